@@ -33,7 +33,7 @@ def guards_of(body, aliases, where):
     Conditions may be disjunctions; a conjunction mentioning the value is not understood."""
     out = []
     lets = dict(re.findall(r"\blet\s+([a-z_][a-z_0-9]*)\s*=\s*([^;]+);", body))
-    for m in re.finditer(r"\bif\s+([^{};]+?)\s*\{\s*return\s+(?:Err\b|num_error\b|ctx\.err\b|Err\()", body):
+    for m in re.finditer(r"\bif\s+([^{};]+?)\s*\{\s*return\s+(?:Err\b|num_error\b|[a-z_]+\.err\b|Err\()", body):
         cond = m.group(1)
         names = set(re.findall(r"[A-Za-z_][A-Za-z_0-9.]*", cond))
         if not (names & set(aliases)):
@@ -44,6 +44,15 @@ def guards_of(body, aliases, where):
             a = atom.strip()
             a = re.sub(r"^\((.*)\)$", r"\1", a).strip()
             mm = re.fullmatch(r"\(?\*?([A-Za-z_][A-Za-z_0-9.]*)(\s+as\s+usize)?\)?\s*(<=|>=|==|!=|<|>)\s*(.+)", a)
+            if not mm or mm.group(1) not in aliases:
+                # the checked value may stand on the right: `limit <= x` is `x >= limit`
+                mr = re.fullmatch(r"(.+?)\s*(<=|>=|==|!=|<|>)\s*\(?\*?([A-Za-z_][A-Za-z_0-9.]*)(\s+as\s+usize)?\)?", a)
+                if mr and mr.group(3) in aliases:
+                    turned = {"<": ">", ">": "<", "<=": ">=", ">=": "<=", "==": "==", "!=": "!="}[mr.group(2)]
+                    name, asus, op, rhs = mr.group(3), mr.group(4), turned, mr.group(1)
+                    cast = "CastUsize" if (asus or aliases[name] == "usize") else "CastNone"
+                    out.append("mkG %s %s (%s)" % (cast, CMP[op], rhs_term(rhs, where, lets)))
+                    continue
             if not mm:
                 raise F.FactError("unrecognised guard atom %r in %s" % (atom, where))
             name, asus, op, rhs = mm.groups()
@@ -115,11 +124,15 @@ def gen():
         if ty not in ITY:
             raise F.FactError("OOV.%s has unsupported type %s" % (fld, ty))
         out.append("Definition unk_%s_ty : ity := %s.\n" % (fld, ITY[ty]))
+    mo = re.search(r"\blet\s+([a-z_][a-z_0-9]*)\s*=\s*OOV\s*\{", b)
+    if not mo:
+        raise F.FactError("read_oov: `let <name> = OOV { .. }` not found")
+    oov_var = mo.group(1)
     for fld in ("left_id", "right_id"):
-        gs = guards_of(b, {"oov." + fld: "none"}, "%s:read_oov" % rel)
+        gs = guards_of(b, {oov_var + "." + fld: "none"}, "%s:read_oov" % rel)
         out.append(coq_list("unk_%s_guards" % fld, gs))
     nb = F.fn_body(t, "get_oov_node", rel)
-    if not re.search(r"oov\.left_id\s+as\s+u16\s*,\s*oov\.right_id\s+as\s+u16\s*,\s*oov\.cost\s*,", nb):
+    if not re.search(r"\b(\w+)\.left_id\s+as\s+u16\s*,\s*\1\.right_id\s+as\s+u16\s*,\s*\1\.cost\s*,", nb):
         raise F.FactError("get_oov_node no longer passes (left_id as u16, right_id as u16, cost)")
     # ---- inhibit_connection.rs
     rel = "sudachi/src/plugin/connect_cost/inhibit_connection.rs"
